@@ -39,5 +39,8 @@ def run(ctx):
     from . import helpers_rules as H_
     H_.r14_3_positions(ctx)
     R3.r14_14_exact_key_match(ctx, 'R13.9')
+    # what a custom recogniser sees must not depend on the position of a key: the require_* helpers scan every pair and decide
+    # after the scan (a decision taken inside the scan depends on which key comes first)
+    H_.r16_3_decisions(ctx, 'R13.8')
     from . import memo_rules as M
     M.memo_sound(ctx, 'R13.M')
